@@ -363,7 +363,7 @@ pub fn gen_random(w: &mut impl Write, thorough: bool, seed: u64) {
         let mem_len = *r.pick(&[0usize, 8, 16, 64, 100]);
         let mbuff_len = if r.chance(1, 3) { *r.pick(&[8usize, 32]) } else { 0 };
         let hs: Vec<u32> = match r.below(4) { 0 => vec![], 1 => vec![1], 2 => vec![0, 0x7fff_ffff], _ => vec![2, 0xffff_ffff, 0x8000_0000] };
-        let cfg = GenCfg { max_len: if i % 50 == 0 { 250 } else { 40 }, helpers: hs.clone(), mem_len, mbuff_len, calls: r.chance(1, 2) };
+        let cfg = GenCfg { max_len: if i % 50 == 0 { 250 } else { 40 }, helpers: hs.clone(), mem_len, mbuff_len, calls: r.chance(1, 2), engine_safe: false };
         let p = random_program(&mut r, &cfg);
         let helpers = if hs.is_empty() { "-".to_string() } else { hs.iter().enumerate().map(|(k, h)| format!("{:x}:{}", h, k % 4)).collect::<Vec<_>>().join(",") };
         let mem = pattern(mem_len, i as u8); let mb = pattern(mbuff_len, (i >> 8) as u8);
@@ -573,5 +573,96 @@ pub fn gen_accepted(w: &mut impl Write, thorough: bool, seed: u64) {
         let Some(p) = l.strip_prefix("verify ") else { continue };
         if p.len() > 16 * 400 || p == "-" { continue; }
         writeln!(w, "exec tag=accepted prog={} mem={} mbuff={} helpers=1:0,2:1,ffffffff:2 budget=400", p, hex(&mem), hex(&mb)).unwrap();
+    }
+}
+
+fn with_suffix(w: &mut impl Write, gen: impl FnOnce(&mut Vec<u8>), pick: &mut dyn FnMut(&str) -> Option<String>) {
+    let mut buf: Vec<u8> = vec![]; gen(&mut buf);
+    for l in String::from_utf8(buf).unwrap().lines() { if let Some(sfx) = pick(l) { writeln!(w, "{} {}", l, sfx).unwrap(); } }
+}
+
+/// C03/C04/C08/C09/C12: the interpreter suites re-run on the x86-64 JIT and on Cranelift, plus engine-specific shapes
+pub fn gen_engines(w: &mut impl Write, thorough: bool, seed: u64) {
+    let mut r = Rng::new(seed ^ 0xe61e);
+    // (1) operation matrix (a third of it in the quick tier) and the memory-instruction matrix
+    let mut k = 0u64;
+    with_suffix(w, |b| gen_matrix(b, thorough, seed), &mut |_| { k += 1; if thorough || k % 3 == 0 { Some("engines=jit,clif kind=mbuff".into()) } else { None } });
+    with_suffix(w, |b| gen_memops(b, thorough, seed), &mut |_| Some("engines=jit,clif kind=mbuff".into()));
+    with_suffix(w, |b| gen_calls(b, false, seed), &mut |_| Some("engines=jit,clif kind=mbuff".into()));
+    // (2) random engine-safe programs on the four VM kinds
+    let n = if thorough { 200_000 } else { 12_000 };
+    for i in 0..n {
+        let kind = ["mbuff", "raw", "nodata", "fixed"][(i % 4) as usize];
+        let mem_len = if kind == "nodata" { 0 } else { *r.pick(&[0usize, 8, 16, 64, 100]) };
+        let mbuff_len = if kind == "mbuff" { *r.pick(&[0usize, 8, 32]) } else { 0 };
+        let hs: Vec<u32> = match r.below(4) { 0 => vec![], 1 => vec![1], 2 => vec![0, 0x7fff_ffff, 3], _ => vec![2, 0xffff_ffff, 0x8000_0000, 7] };
+        // r6 = r1: for fixed/mbuff VMs r1 points at metadata; random blocks only address [r6 + off] within the r1 region
+        let r1_len = match kind { "mbuff" => if mbuff_len > 0 { mbuff_len } else { mem_len }, "raw" => mem_len, "fixed" => 16, _ => 0 };
+        let cfg = GenCfg { max_len: 40, helpers: hs.clone(), mem_len: if kind == "mbuff" && mbuff_len > 0 { mem_len } else if kind == "fixed" { mem_len } else { r1_len }, mbuff_len: if kind == "mbuff" { mbuff_len } else { 0 }, calls: i % 8 == 0, engine_safe: true };
+        let cfg = if kind == "fixed" { GenCfg { mem_len: 0, mbuff_len: 0, ..cfg } } else { cfg };   // fixed: only ldabs-free arithmetic / stack traffic here; pointer probes below
+        let p = random_program(&mut r, &cfg);
+        let helpers = if hs.is_empty() { "-".to_string() } else { hs.iter().enumerate().map(|(k, h)| format!("{:x}:{}", h, k % 4)).collect::<Vec<_>>().join(",") };
+        let mem = pattern(mem_len, i as u8); let mb = pattern(mbuff_len, (i >> 8) as u8);
+        writeln!(w, "exec tag=engrandom prog={} mem={} mbuff={} helpers={} budget=3000 engines=jit,clif kind={} fixoff={}:{}", hex(&p), hex(&mem), hex(&mb), helpers, kind, 8 * r.below(4), 32 + 8 * r.below(4)).unwrap();
+    }
+    // (3) context probes (C09): r1, r10-relative stack top, ldabs/ldind of the packet, fixed-metadata slots, two sizes of packet, offsets in either order
+    for kind in ["mbuff", "raw", "nodata", "fixed"] { for mem_len in [0usize, 1, 8, 64, 1500] { for (d, e) in [(0usize, 8usize), (8, 0), (0x40, 0x50), (0x50, 0x40), (0, 4096), (65528, 0), (16, 24)] { for mbl in [0usize, 32] {
+        if kind != "fixed" && (d, e) != (0, 8) { continue; }
+        if kind != "mbuff" && mbl != 0 { continue; }
+        let mem = pattern(mem_len, 21); let mb = pattern(mbl, 22);
+        let tail = format!("mem={} mbuff={} budget=300 engines=jit,clif kind={} fixoff={}:{}", hex(&mem), hex(&mb), kind, d, e);
+        // probe A: r0 = (r1 != 0)  and stack top is writable at r10-8 .. r10-512 but r10 itself is one past the end
+        let mut p = vec![]; p.extend(ins(0xb7, 0, 0, 0, 0)); p.extend(ins(0x15, 1, 0, 1, 0)); p.extend(ins(0xb7, 0, 0, 0, 1));
+        p.extend(ins(0x7a, 10, 0, -8, 0x11)); p.extend(ins(0x7a, 10, 0, -512, 0x22)); p.extend(ins(0x79, 2, 10, -8, 0)); p.extend(ins(0x79, 3, 10, -512, 0));
+        p.extend(ins(0x67, 0, 0, 0, 8)); p.extend(ins(0x0f, 0, 2, 0, 0)); p.extend(ins(0x67, 0, 0, 0, 8)); p.extend(ins(0x0f, 0, 3, 0, 0)); p.extend(EXIT);
+        writeln!(w, "exec tag=context prog={} {}", hex(&p), tail).unwrap();
+        // probe B: first byte through r1 (raw / metadata), last byte through ldabs
+        if (kind == "raw" && mem_len > 0) || (kind == "mbuff" && mbl > 0) { let mut p = vec![]; p.extend(ins(0x71, 0, 1, 0, 0)); p.extend(EXIT); writeln!(w, "exec tag=context prog={} {}", hex(&p), tail).unwrap(); }
+        if kind == "mbuff" && mbl == 0 && mem_len > 0 { let mut p = vec![]; p.extend(ins(0x71, 0, 1, 0, 0)); p.extend(EXIT); writeln!(w, "exec tag=context prog={} {}", hex(&p), tail).unwrap(); }
+        if mem_len > 0 && kind != "nodata" { for off in [0usize, mem_len - 1] { let mut p = vec![]; p.extend(ins(0x30, 0, 0, 0, off as i32)); p.extend(EXIT); writeln!(w, "exec tag=context prog={} {}", hex(&p), tail).unwrap();
+            let mut p = vec![]; p.extend(ins(0xb7, 3, 0, 0, off as i32)); p.extend(ins(0x50, 0, 3, 0, 0)); p.extend(EXIT); writeln!(w, "exec tag=context prog={} {}", hex(&p), tail).unwrap(); } }
+        // probe C (fixed): data_end - data = len, first and last packet byte through the slots, both slots equal the ldabs view
+        if kind == "fixed" && d + 8 <= 32767 && e + 8 <= 32767 { let mut p = vec![];
+            p.extend(ins(0x79, 2, 1, d as i16, 0)); p.extend(ins(0x79, 3, 1, e as i16, 0)); p.extend(ins(0xbf, 0, 3, 0, 0)); p.extend(ins(0x1f, 0, 2, 0, 0));
+            if mem_len > 0 { p.extend(ins(0x71, 4, 2, 0, 0)); p.extend(ins(0x71, 5, 3, -1, 0)); p.extend(ins(0x67, 0, 0, 0, 8)); p.extend(ins(0x0f, 0, 4, 0, 0)); p.extend(ins(0x67, 0, 0, 0, 8)); p.extend(ins(0x0f, 0, 5, 0, 0)); }
+            p.extend(EXIT); writeln!(w, "exec tag=context prog={} {}", hex(&p), tail).unwrap(); }
+    } } } }
+    // (4) helper contract (C08): argument order, r6..r9 preserved, ldabs after a helper call, calls inside local functions at depth 0..3, unknown ids
+    for depth in 0..4usize { for id in [0u32, 1, 0x7fff_ffff, 0x8000_0000, 0xffff_ffff, 3] { for reg_ok in [true, false] {
+        let mut s: Vec<[u8; 8]> = vec![];
+        // main: init r6..r9, args; descend `depth` local calls (each function at the end), call helper there, fold
+        for q in 6..10u8 { s.push(ins(0xb7, q, 0, 0, 0x600 + q as i32)); }
+        for d in 0..depth { let _ = d; s.push(ins(0x85, 0, 1, 0, 0)); }   // placeholders, patched below (each call goes to the next nesting level)
+        let body_at = s.len();
+        let _ = body_at;
+        // straight-line: we instead build nested functions: level k function = [call level k+1] ; exit, the innermost does the helper call
+        s.clear();
+        for q in 6..10u8 { s.push(ins(0xb7, q, 0, 0, 0x600 + q as i32)); }
+        for a in 1..6u8 { s.push(ins(0xb7, a, 0, 0, 0x10 * a as i32 + depth as i32)); }
+        if depth == 0 { s.push(ins(0x85, 0, 0, 0, id as i32)); } else { s.push(ins(0x85, 0, 1, 0, 0)); }
+        let main_call = s.len() - 1;
+        for q in 6..10u8 { s.push(ins(0x27, 0, 0, 0, 3)); s.push(ins(0x0f, 0, q, 0, 0)); }
+        s.push(ins(0xbf, 6, 0, 0, 0)); s.push(ins(0x30, 0, 0, 0, 2)); s.push(ins(0x0f, 0, 6, 0, 0));   // ldabsb after the helper call
+        s.push(EXIT);
+        let mut starts = vec![];
+        for k in 1..=depth { starts.push(s.len());
+            if k == depth { for a in 1..6u8 { s.push(ins(0x07, a, 0, 0, k as i32)); } s.push(ins(0x85, 0, 0, 0, id as i32)); s.push(ins(0xb7, 7, 0, 0, 0x777)); }
+            else { s.push(ins(0xb7, 8, 0, 0, 0x888)); s.push(ins(0x85, 0, 1, 0, 0)); }
+            s.push(EXIT); }
+        // patch local calls
+        if depth > 0 { let d = starts[0] as i64 - (main_call as i64 + 1); s[main_call][4..8].copy_from_slice(&(d as i32).to_le_bytes()); }
+        for k in 1..depth { let at = starts[k - 1] + 1; let d = starts[k] as i64 - (at as i64 + 1); s[at][4..8].copy_from_slice(&(d as i32).to_le_bytes()); }
+        let p: Vec<u8> = s.iter().flatten().copied().collect();
+        let helpers = if reg_ok { format!("{:x}:3", id) } else { format!("{:x}:3", id ^ 1) };
+        writeln!(w, "exec tag=helpers prog={} mem={} helpers={} budget=300 engines=jit,clif kind=raw", hex(&p), hex(&pattern(16, 3)), helpers).unwrap();
+    } } }
+    // (5) div/mod far into a long program (instruction index beyond 2^16) and at index 65535
+    for at in [65_534usize, 65_535, 65_536, 70_000, 131_071] {
+        let n = at + 40; let mut slots: Vec<[u8; 8]> = vec![ins(0x07, 0, 0, 0, 1); n];
+        slots[0] = ins(0xb7, 0, 0, 0, 0); slots[1] = ins(0xb7, 2, 0, 0, 0); slots[2] = ins(0xb7, 3, 0, 0, 77);
+        for (k, opc) in [(0usize, 0x3fu8), (1, 0x9f), (2, 0x3c), (3, 0x9c)] { slots[at + 2 * k] = ins(opc, 3, 2, 0, 0); slots[at + 2 * k + 1] = ins(0x0f, 0, 3, 0, 0); }
+        slots[n - 1] = EXIT;
+        let p: Vec<u8> = slots.iter().flatten().copied().collect();
+        writeln!(w, "exec tag=farjump prog={} budget=400000 engines=jit,clif kind=nodata", hex(&p)).unwrap();
     }
 }
